@@ -20,6 +20,9 @@ def run(cx):
     rest(cx)
     window_limited_still_syncs(cx, "C11.f")
     resync_acceptance(cx, "C11.g")
+    from props.shared import ack_processing_presence, dispatch_table
+    ack_processing_presence(cx, "C11.h")
+    dispatch_table(cx, "C11.i", only={"DataFrame", "SyncFrame", "AckFrame"})
 
 
 def window_limited_still_syncs(cx, iid):
